@@ -12,7 +12,7 @@ VT_PY = "/opt/veriftools/pyvenv/bin/python3"
 # query id prefix -> properties it speaks for
 OWNERS = {"K1.try_parse_format": ["C13", "C14"], "K1.extension_format": ["C14"], "K1.input_path_from": ["C14"],
           "K1.unsafe_for_terminal": ["C13"], "K2": ["C13"], "K3": ["C13", "C16"], "K4": ["C14"], "K4.open": ["C14"],
-          "K5": ["C15", "C16"], "K6": ["C16"], "K7": ["C03", "C12", "C18", "C02"], "K8": ["C07", "C02", "C09"], "K9": ["C03", "C02", "C04", "C12", "C09"]}
+          "K5": ["C15", "C16"], "K6": ["C16"], "K7": ["C03", "C12", "C18", "C02"], "K8": ["C07", "C02", "C09"], "K9": ["C03", "C02", "C04", "C12", "C09"], "K10": ["C08", "C11"], "K11": ["C09", "C03"], "K12": ["C03", "C12"]}
 
 
 def mir_dump(scratch, logdir):
@@ -63,10 +63,11 @@ def run(prop, hs, scratch, logdir):
              "witnesses": res.get("witnesses", []), "samples": res.get("samples", [])}
         mine = [v for v in res.get("violations", []) if prop in owners(v[0])]
         others = [v for v in res.get("violations", []) if prop not in owners(v[0])]
-        if res.get("status") == "inconclusive":
-            r["verdict"], r["detail"] = "inconclusive", res.get("detail", "")
-        elif mine:
+        if mine:
+            # a recorded violation is replayed natively even if the run as a whole ended inconclusive
             confirm(prop, h, mine, r, scratch, src, logdir, binary)
+        elif res.get("status") == "inconclusive":
+            r["verdict"], r["detail"] = "inconclusive", res.get("detail", "")
         else:
             r["verdict"] = "discharged"
             r["detail"] = "%s paths, %s z3 queries, %.1fs solver" % (res.get("paths"), res.get("queries"), res.get("solver_s") or 0)
@@ -130,12 +131,12 @@ def confirm(prop, h, mine, r, scratch, src, logdir, binary):
             unknown.append(q)
             lines.append("    native replay: binary did not build")
             continue
-        if kind in ("loop", "from_reader", "chunker"):
+        if kind in ("loop", "from_reader", "chunker", "toml_output", "dispatch", "framing"):
             key = "stream_native"
             if key not in done_groups:
                 done_groups[key] = integration(scratch, src, logdir, "stream_native.rs")
         fn = cli_battery.GROUPS.get(kind)
-        key = key if kind in ("loop", "from_reader", "chunker") else (fn.__name__ if fn else None)
+        key = key if kind in ("loop", "from_reader", "chunker", "toml_output", "dispatch", "framing") else (fn.__name__ if fn else None)
         if key in done_groups:
             mism = done_groups[key]
         else:
